@@ -135,7 +135,12 @@ func (w *worker) doReplay(name string, opts vrt.Options, body func()) {
 	var first *vrt.Exec
 	for i := 0; i < 5; i++ {
 		if i == 0 && os.Getenv("VERIF_TRACE") != "" {
-			vrt.Trace = func(l string) { fmt.Println("TRACE", l) }
+			lvl := os.Getenv("VERIF_TRACE")
+			vrt.Trace = func(l string) {
+				if lvl == "2" || strings.HasPrefix(l, "step") {
+					fmt.Println("TRACE", l)
+				}
+			}
 		} else {
 			vrt.Trace = nil
 		}
